@@ -168,7 +168,7 @@ Section Ev.
 
   (* [es ++ [e]][-1] : value of the last element *)
   Lemma Ev_last es e s s1 v s' : EvSeq es s s1 -> Ev (MExpr e) s1 (v, s') ->
-    Ev (MExpr (Subscript (EList (es ++ [e])) (cint (-1)))) s (v, s').
+    Ev (MExpr (Subscript (EList (es ++ [e])) minus1)) s (v, s').
   Proof.
     intros Hes He.
     assert (G : forall n last, Ev (MSeq (es ++ [e]) n last false) s (v, s')).
@@ -177,7 +177,7 @@ Section Ev.
         rewrite (run_mono orc _ _ _ _ Hf (S f)) by lia. reflexivity.
       - destruct (Ev2 _ _ _ _ _ _ He0 (IH He (S n) v0)) as [f [A B]]. exists (S f). cbn [app].
         rewrite run_seq_cons, A. exact B. }
-    destruct (G 0 VNone) as [f Hf]. exists (S f). cbn [run cint]. exact Hf.
+    destruct (G 0 VNone) as [f Hf]. exists (S f). unfold minus1. cbn [run cint]. exact Hf.
   Qed.
 
   (* the expression wrapper with the list option *)
